@@ -12,7 +12,7 @@ import json
 import os
 import random
 
-from lib import btc, chains, ref, run, tracecheck, utxohist
+from lib import datadir, btc, chains, ref, run, tracecheck, utxohist
 
 SKIP = 'tmp_create,idx_rec,idx_keep,idx_done,files,on_start,lookup,fetched,verify,rename,renamed,eval'
 
@@ -181,9 +181,68 @@ def main(ck, tier, w, pid='C07'):
         if probs:
             ck.violation('; '.join(probs), {'scenario': {'transactions': nh, 'blocks': nb, 'start': start, 'seed': str(j[0])},
                                             'observed': r.brief(), 'trace_verdict': v, 'tags': []})
+    # ---- every kind of script that bears an address on the coin (and many that do not), of any length: the dumps list an output
+    # iff the evaluator gives it an address - storage adds no condition of its own
+    from lib import scriptrep
+    for coin in (['bitcoin', 'dogecoin'] if quick else list(btc.COINS)):
+        rs = random.Random('%d-exotic-%s' % (seed, coin))
+        scripts = [x for x in scriptrep.random_scripts(rs, 600) if len(x) <= 100000]
+        per = (len(scripts) + 2) // 3
+        eb, prev = [], b'\0' * 32
+        made = []
+        for h in range(4):
+            txs = [btc.coinbase(h, btc.p2pkh(rs.randbytes(20)))]
+            if h < 3:
+                t = {'ver': 1, 'ins': [{'txid': rs.randbytes(32), 'idx': 0, 'sig': b'', 'seq': 0}],
+                     'outs': [{'val': 1 + i, 'spk': x} for i, x in enumerate(scripts[h * per:(h + 1) * per])], 'lock': h}
+                txs.append(t)
+                made.append((btc.txid(t), len(t['outs'])))
+            else:
+                # spend every fifth of them again
+                txs.append({'ver': 1, 'ins': [{'txid': tid_, 'idx': i, 'sig': b'', 'seq': 0} for tid_, n_ in made for i in range(0, n_, 5)],
+                            'outs': [{'val': 3, 'spk': btc.p2pkh(rs.randbytes(20))}], 'lock': 9})
+            eb.append(datadir.mk_block(prev, txs, t=1300000000 + h, nonce=h))
+            prev = eb[-1]['hash']
+        d = utxohist.write_chain(w, eb, nfiles=2, coin=coin)
+        out = run_both(w, d, len(eb), coin=coin, timeout=300)
+        exp = ref.utxo_expected(list(enumerate(eb)), coin)
+        for cb, want in (('unspentcsvdump', ref.unspent_rows(exp)), ('balances', ref.balances_rows(exp))):
+            r, rows, probs, _ = out[cb]
+            ck.evals()
+            ck.distinct(('exotic', coin, cb))
+            if not probs and rows != want:
+                probs = ['rows differ from the reference: unexpected %s, missing %s' % (sorted(rows - want)[:3], sorted(want - rows)[:3])]
+            if probs and (pid == 'C07') == (cb == 'unspentcsvdump'):
+                ck.violation('%s %s over outputs with %d scripts of every kind and length: %s' % (coin, cb, len(scripts), '; '.join(probs[:3])),
+                             {'coin': coin, 'observed': r.brief(), 'tags': []})
+
+    # ---- a dump larger than the writer's 4 MB buffer is complete or absent: under a file size limit inside it the run fails
+    # and publishes nothing (the dump is either all rows or no file - C10 explores this in depth)
+    rw = random.Random('%d-widefault' % seed)
+    fb, prev = [], b'\0' * 32
+    for h in range(3):
+        fb.append(datadir.mk_block(prev, [btc.coinbase(h, btc.p2pkh(rw.randbytes(20))),
+                                          {'ver': 1, 'ins': [{'txid': rw.randbytes(32), 'idx': 0, 'sig': b'', 'seq': 1}],
+                                           'outs': [{'val': 1 + i, 'spk': b'\x76\xa9\x14' + rw.randbytes(20) + b'\x88\xac'} for i in range(40000)], 'lock': 0}],
+                                   t=1300000000 + h, nonce=h))
+        prev = fb[-1]['hash']
+    fd = utxohist.write_chain(w, fb)
+    cbx, prex = ('unspentcsvdump', 'unspent') if pid == 'C07' else ('balances', 'balances')
+    for lim in (None, 3000000, 4100000):
+        r = run.run_parser(fd.path, cbx, dump=w.mk('out'), fsize=lim, timeout=300)
+        size = len(r.files.get('%s-0-2.csv' % prex, b''))
+        nrows = r.files.get('%s-0-2.csv' % prex, b'').count(b'\n') - 1
+        ck.evals()
+        ck.distinct(('widefault', cbx, lim))
+        if lim is None:
+            if r.rc != 0 or nrows != 120003 or size <= 4100000:
+                ck.violation('%s of 120 003 addressed outputs: exit %d, %d rows, %d bytes' % (cbx, r.rc, nrows, size), {'observed': r.brief(), 'tags': []})
+        elif r.rc == 0 or ('%s-0-2.csv' % prex) in r.files:
+            ck.violation('%s under a %d byte file size limit: exit %d and %s-0-2.csv published with %d of 120 003 rows' % (cbx, lim, r.rc, prex, nrows),
+                         {'rlimit_fsize': lim, 'observed': r.brief(), 'tags': []})
+
     # ---- counts beyond 16 bits: a transaction with more than 65 536 outputs / inputs (indices are 32-bit on the wire) -----------
     r0 = random.Random('%d-wide' % seed)
-    from lib import datadir
     A = [btc.p2pkh(r0.randbytes(20)) for _ in range(3)]
     NO = 65540
     marks = {0: A[0], 1: A[1], 255: A[0], 256: A[2], 65535: A[1], 65536: A[2], 65537: A[0], 65539: A[1]}
@@ -220,7 +279,6 @@ def main(ck, tier, w, pid='C07'):
             for k in range(10 if h else 0):
                 txs.append({'ver': 1, 'ins': [{'txid': r0.randbytes(32), 'idx': 0, 'sig': b'', 'seq': 0}],
                             'outs': [{'val': r0.randrange(10 ** 6), 'spk': spks[(j * 7 + k + h) % 7]} for j in range(3000)], 'lock': h * 100 + k})
-            from lib import datadir
             b = datadir.mk_block(prev, txs, t=1300000000 + h, nonce=h)
             blocks.append(b)
             prev = b['hash']
